@@ -35,7 +35,7 @@ def project(raw, prog):
     L = ['T ' + ' '.join(lops)]; H = ['T ' + ' '.join(hops)]
     pend = []; two = False         # which structure each buffered updater store belongs to
     for l in raw.splitlines():
-        p = l.split()
+        p = l.replace(' (fwd)', '').split()
         if len(p) < 3 or not p[0].isdigit(): continue
         t, k = p[0], p[1]
         if t == '0':
